@@ -120,6 +120,28 @@ func VSetRegistered(a *AliveDialerSet, d *Dialer) bool {
 
 func VReloadInherited(d *Dialer) bool { return d.reloadInheritedHealth.Load() }
 
+// VCheckActivated: is the aliveBackground goroutine of this dialer running (or about to).
+func VCheckActivated(d *Dialer) bool {
+	d.tickerMu.Lock()
+	defer d.tickerMu.Unlock()
+	return d.checkActivated
+}
+
+// VReleaseCheckPool releases the process-global probe worker pool and forgets it: its goroutines,
+// tickers and channels belong to the synctest bubble that created it and must not outlive it.
+func VReleaseCheckPool() {
+	poolMu.Lock()
+	defer poolMu.Unlock()
+	if connectivityCheckPool != nil {
+		connectivityCheckPool.Release()
+		connectivityCheckPool = nil
+	}
+	poolActiveCount = 0
+}
+
+// VProbeTimeout is the per-attempt deadline of Dialer.check.
+func VProbeTimeout() time.Duration { return Timeout }
+
 // ---- concurrency probe (fix 13e43e7): two racing reports on one node, one set; at quiescence the set
 // must agree with the node and the last value handed to the group callback with the set.
 // On the fixed tree 0 disagreements is a fact (Props.concurrent_reports_agree_at_quiescence is the
